@@ -55,6 +55,15 @@ pub fn judge(input: &Vec<u8>, st: &mut Stats) -> Verdict {
                 ))
             }
         }
+    } else if let Ok(ppp::HeaderResult::V2(Ok(h))) = imp::auto(input) {
+        // ... and nothing else is a v2 header through that route either
+        return Err(Fail::new(
+            "auto-route-accepts",
+            shape2(input),
+            "HeaderResult::parse",
+            format!("not V2(Ok): the input is not a well-formed v2 header ({})", imp::short(&format!("{:?}", v2_ref(input)))),
+            format!("V2(Ok) with a header of {} bytes", h.header.len()),
+        ));
     }
     Ok(())
 }
